@@ -206,3 +206,21 @@ def normalize(segments):
                 continue
         out.append((a, d))
     return out, False
+
+
+def selftest():
+    """known-good records from the specification / common references (plain values)"""
+    r = parse_record(":10010000214601360121470136007EFE09D2190140")
+    assert r["ok"] and r["typ"] == 0 and r["offset"] == 0x0100 and len(r["data"]) == 16 and r["data"][0] == 0x21
+    assert not parse_record(":10010000214601360121470136007EFE09D2190141")["ok"]          # checksum
+    assert not parse_record(":0F010000214601360121470136007EFE09D2190141")["reclen_ok"]   # length
+    d = decode([":020000040800F2", ":04FFFE00AABBCCDDF1", ":0400000508000135B9", ":00000001FF"])
+    assert d["conforming"] and d["start_linear"] == 0x08000135
+    assert normalize(d["segments"]) == ([(0x0800FFFE, [0xAA, 0xBB, 0xCC, 0xDD])], False)   # linear: no 64K wrap
+    d = decode([":020000021000EC", ":04FFFE00AABBCCDDF1", ":00000001FF"])
+    assert d["conforming"] and normalize(d["segments"]) == ([(0x10000, [0xCC, 0xDD]), (0x1FFFE, [0xAA, 0xBB])], False)
+    assert not decode([":00000001FF", ":00000001FF"])["structure_ok"]
+    assert not decode([":020000040800F2"])["structure_ok"]
+    assert normalize([(5, [1]), (3, [2, 3]), (9, [4])]) == ([(3, [2, 3, 1]), (9, [4])], False)
+    assert normalize([(5, [1, 2]), (6, [3])])[1] is True
+    return True
